@@ -192,17 +192,29 @@ def r3_attribution(ctx):
         wr = [c for c in calls_in(sf.node) if call_name(c) in ("write_to_fits", "write_to_npy", "write_to_jpg")]
         ok4 = len(wr) == 3 and all(dotted(kw(c, "filename")) == "full_filename" and norm(kw(c, "data")) == "np.asarray(data_2d)" for c in wr)
         ctx.check(ok1 and ok2 and ok3 and ok4, sf.qual + "#attribution", "each file holds the bucket its own name designates, read from the given processor" if ok1 and ok2 and ok3 and ok4 else "file name and written bucket can disagree in save_to_files", where=sf, node=lp[0])
-        # extension dispatch
-        mt = [m for m in walk_ordered(sf.node) if isinstance(m, ast.Match)]
+        # extension dispatch, decided per extension keyword over the paths of one loop iteration
+        # (match statement, if/elif ladder or helper function: all the same after normalisation)
+        from sa.paths import enumerate_paths, feasible_paths
+
+        paths = [q for q in enumerate_paths(lp[0].body)]
+        from sa.paths import dispatch_subjects
+
+        ext_vars = dispatch_subjects(paths, {"fits", "npy", "jpg"})
         table = {}
-        if mt:
-            for case in mt[0].cases:
-                pats = [p.value.value for p in ast.walk(case.pattern) if isinstance(p, ast.MatchValue) and isinstance(p.value, ast.Constant)]
-                callee = [call_name(c) for c in ast.walk(ast.Module(body=case.body, type_ignores=[])) if isinstance(c, ast.Call) and call_name(c).startswith("write_to_")]
-                for p in pats:
-                    table[p] = callee[0] if callee else None
-        ok = table.get("fits") == "write_to_fits" and table.get("npy") == "write_to_npy" and table.get("jpg") == "write_to_jpg" and table.get("jpeg") == "write_to_jpg"
-        ctx.check(ok, sf.qual + "#formats", "extension -> writer of that format" if ok else f"extension dispatch {table}", where=sf, node=mt[0] if mt else sf.node)
+        for ext in ("fits", "npy", "jpg", "jpeg"):
+            writers = set()
+            for ev in ext_vars or {"extension"}:
+                for q in feasible_paths(paths, ev, ext):
+                    if q.exit == "raise":
+                        continue  # rejected input (unknown bucket, empty bucket): no file at all
+                    if not any(fn_.split(".")[-1].startswith("write_to_") for fn_, _, _ in q.calls):
+                        writers.add("<nothing written>")
+                    for fn_, c_, _ in q.calls:
+                        if fn_.split(".")[-1].startswith("write_to_"):
+                            writers.add(fn_.split(".")[-1])
+            table[ext] = sorted(writers)
+        ok = table.get("fits") == ["write_to_fits"] and table.get("npy") == ["write_to_npy"] and table.get("jpg") == ["write_to_jpg"] and table.get("jpeg") == ["write_to_jpg"]
+        ctx.check(ok, sf.qual + "#formats", "extension -> writer of that format" if ok else f"extension dispatch {table}", where=sf, node=lp[0])
         rep = [c for c in calls_in(sf.node) if call_name(c).endswith("DataArray") and c.args and norm(c.args[0]) == "str(full_filename)"]
         ctx.check(bool(rep), sf.qual + "#reported", "the reported name is the written path" if rep else "reported file name is not the written path", where=sf, node=rep[0] if rep else sf.node)
     o = ctx.func("pyxel.observation.observation:Observation._run_single_pipeline")
